@@ -9,8 +9,9 @@ TIMEOUT = {"quick": 900, "thorough": 3000}
 MIN_EVALUATIONS = {"quick": 20000, "thorough": 20000}  # fewer oracle evaluations than this means the workload collapsed: inconclusive
 RULE = ("random controller projects (atomic tags of every Logix type, 1-3 dim arrays, BOOL arrays as DWORDs, UDTs nested <=3 with packed BOOLs "
         "on hidden hosts, string types of capacity 1..4100, program-scoped tags, aliases, module tags) x random memory images x controller "
-        "configurations {fw 16,17,18,20,21,24,32, Micro800} x {4000-byte, 500-byte connection} x target reply policy {full, random, 1-8 byte "
-        "fragments}; each read() call carries 1-25 requests in the documented syntax (base, [i..], {n}, [i]{n}, member paths through arrays of "
+        "configurations {fw 16,17,18,20,21,24,32, Micro800 at fw 12 / 21 / 22 (empty route only)} x {4000-byte, 500-byte connection} x target "
+        "reply policy {full, random, 1-8 byte fragments}; every fourth project is read through a second driver (init_tags=False) that shares the "
+        "first one's tag list; each read() call carries 1-25 requests in the documented syntax (base, [i..], {n}, [i]{n}, member paths through arrays of "
         "structs, .bit, BOOL-array [i] / {n} / [i]{n}, BOOL members, strings, whole structs, duplicates) with element counts aimed at the "
         "byte windows around the connection size; every returned Tag is compared with the reference interpretation of the target's memory "
         "(value, type string, name, truthiness). distinct = (request shape, element type kind, transport path taken per target log, config) evaluated")
